@@ -257,6 +257,11 @@ class ContractSet:
         if typ.startswith("const:"):
             fr = Frame(self.any_module())
             return I.ev(ast.parse(typ[6:], mode="eval").body, fr)
+        if typ.startswith("new:"):
+            # a freshly allocated instance before __init__ ran: no instance attributes yet
+            cls = I.class_by_qual(typ[4:])
+            ref = VRef(P.alloc(HObj("inst", cls, {}, meta={"name": name, "input": bool(self.inputs_phase), "init_fields": {}})))
+            return ref
         if typ.startswith("sub:"):
             # any class of the repository that is the named class or a subclass of it (closed world)
             base = I.class_by_qual(typ[4:])
@@ -466,6 +471,7 @@ class ContractSet:
             walk(fnode.body)
         for i, s in enumerate(order):
             s._pyvc_ord = i
+            s._pyvc_all = order
         return order
 
     def setup_inputs(self, I, c: Contract):
@@ -834,19 +840,87 @@ class ContractSet:
             except Unsupported:
                 return None
             k = getattr(node, "_pyvc_ord", None)
-        lc = c.loops.get(k)
-        if lc is None and "#" in c.target:
+        loops = {}
+        if "#" in c.target:
             base = self.contracts.get(c.target.split("#")[0])
-            lc = base.loops.get(k) if base is not None else None
+            if base is not None:
+                loops.update(base.loops)
+        loops.update(c.loops)
+        if not loops:
+            return None
+        order = getattr(node, "_pyvc_all", None)
+        if order is not None and all(l.get("match") for l in loops.values()):
+            # attach loop contracts by their match keys, order preserving (a deleted or added loop does not shift the others);
+            # more than one best alignment -> the contracts must be re-attached by hand (undecided, never a refutation)
+            amap = self.align_loops(c, loops, order)
+            ck = amap.get(k)
+            if ck is None:
+                return None
+            return (c, ck, loops[ck])
+        lc = loops.get(k)
         if lc is None:
             return None
         want = lc.get("match")
         if want:
-            src = ast.unparse(node.iter if isinstance(node, (ast.For, ast.AsyncFor)) else node.test)
+            src = self.loop_src(node)
             if want not in src:
                 raise Unsupported(f"loop contract {c.target}.loop{k} expects a loop over `{want}` but the loop at line {node.lineno} is over `{src}` "
                                   f"(the function's loops changed; the contract must be re-attached)")
         return (c, k, lc)
+
+    @staticmethod
+    def loop_src(node):
+        return ast.unparse(node.iter if isinstance(node, (ast.For, ast.AsyncFor)) else node.test)
+
+    def align_loops(self, c, loops, order):
+        key = (c.target, id(order))
+        cache = self.__dict__.setdefault("_align_cache", {})
+        if key in cache:
+            return cache[key]
+        ck = sorted(loops, key=lambda x: int(x))
+        srcs = [self.loop_src(n) for n in order]
+        n, m = len(srcs), len(ck)
+        # best[i][j] = (size, count) of maximum order-preserving matchings of srcs[i:] with ck[j:]
+        best = [[(0, 1)] * (m + 1) for _ in range(n + 1)]
+        for i in range(n - 1, -1, -1):
+            for j in range(m - 1, -1, -1):
+                opts = {}
+                # skip contract j / skip loop i / match; count distinct matchings (as sets of pairs), not derivations
+                cand = []
+                if loops[ck[j]]["match"] in srcs[i]:
+                    sz, cnt = best[i + 1][j + 1]
+                    cand.append((sz + 1, cnt, "m"))
+                cand.append((best[i + 1][j][0], best[i + 1][j][1], "si"))
+                cand.append((best[i][j + 1][0], best[i][j + 1][1], "sj"))
+                top = max(x[0] for x in cand)
+                # distinct matchings: those using pair (i,j) + those not using loop i + those using loop i but not contract j (and not pair (i,j))
+                cnt = 0
+                if cand[0][2] == "m" and cand[0][0] == top:
+                    cnt += cand[0][1]
+                a = best[i + 1][j]
+                b = best[i][j + 1]
+                ab = best[i + 1][j + 1]
+                # matchings avoiding pair (i,j): union of (skip i) and (skip j), intersection = skip both
+                cnt_skip = (a[1] if a[0] == top else 0) + (b[1] if b[0] == top else 0) - (ab[1] if ab[0] == top else 0)
+                cnt += max(cnt_skip, 0)
+                best[i][j] = (top, max(cnt, 1))
+        size, count = best[0][0]
+        if count > 1:
+            raise Unsupported(f"loop contracts of {c.target} can be attached to the function's loops in {count} ways "
+                              f"(loops now: {srcs}); the contract must be re-attached")
+        amap = {}
+        i = j = 0
+        while i < n and j < m:
+            if loops[ck[j]]["match"] in srcs[i] and best[i + 1][j + 1][0] + 1 == best[i][j][0]:
+                amap[i] = ck[j]
+                i += 1
+                j += 1
+            elif best[i + 1][j][0] == best[i][j][0]:
+                i += 1
+            else:
+                j += 1
+        cache[key] = amap
+        return amap
 
     @staticmethod
     def assigned_names(stmts):
@@ -870,10 +944,9 @@ class ContractSet:
             return VFloat(t=z3.Real(fresh(name)))
         if isinstance(v, VBytes):
             return self.make(I, v.kind, name)
-        if isinstance(v, VNone):
-            return NONE
         if isinstance(v, VStr):
             return VStr(t=z3.Const(fresh(name), STR))
+        # None before the loop says nothing about the value after some iterations: unknown unless the loop contract types it
         return VPoison(name)
 
     def eval_pre(self, I, node, fr):
